@@ -5195,7 +5195,13 @@ class _InstancePrivate:
         self.values = {} if values is None else values
 
     def __getstate__(self):
-        return {slot: getattr(self, slot) for slot in self.__slots__}
+        state = {slot: getattr(self, slot) for slot in self.__slots__}
+        # The transient dispatch state (an open batch and what it has queued,
+        # a running trigger) belongs to the live object, not to a copy of it
+        state['parameters_state'] = {
+            "BATCH_WATCH": False, "TRIGGER": False, "events": [], "watchers": []
+        }
+        return state
 
     def __setstate__(self, state):
         for k, v in state.items():
